@@ -1,5 +1,6 @@
 """C02 - no stale value survives any edit."""
 import ast
+import re
 
 from ..framework import rule
 from ..astutil import dotted, call_name, call_recv, norm, walk_local, unparse, ancestors
@@ -87,6 +88,11 @@ def r1(ctx, R):
             ("recursive", "T") not in q.guards_of(cac, rc[0]):
         R.bad(cac, rc[0] if rc else cac.node, "a recursive clear stops one level down: cells two or more levels below a renamed "
               "space keep their values", stmt="recursive clear")
+    R.inst("UserCellsImpl.reload: the cells derived from the reloaded one are re-derived (they share the formula object)")
+    us_ = [c for c in q.calls(rl, name="update_subs") if [norm(a) for a in c.args] == ["self.parent"]]
+    if not us_ or not any((t, "T") in q.guards_of(rl, us_[0]) for t in chg) or (co and q.path_between(rl, us_[0], co[0])):
+        R.bad(rl, rl.node, "cells derived in sub spaces keep their values and the old function after a reload",
+              stmt="update_subs after reload")
     # space rename
     sr = ctx.func("UserSpaceImpl.on_rename")
     for st, t in q.attr_writes(sr, attr="name", recv="self"):
@@ -97,6 +103,29 @@ def r1(ctx, R):
         cc = q.calls(sr, name="clear_all_cells")
         if cc and not all(norm(kw(cc[0], k) or ast.Constant(0)) == "True" for k in ("clear_input", "recursive", "del_items")):
             R.bad(sr, cc[0], "renaming does not clear recursively including inputs and ItemSpaces")
+    n += 1
+    R.inst("UserSpaceImpl.on_rename: formulas that read a reference of the renamed tree by path are cleared")
+    car = q.calls(sr, name="clear_attr_referrers")
+    okt = False
+    for c in car:
+        lp_ = enclosing_for(sr, c)
+        if lp_ is None or not c.args or norm(c.args[0]) != norm(lp_.target):
+            continue
+        it_ = norm(lp_.iter)
+        m_ = re.fullmatch(r"(\w+)\.own_refs\.values\(\)", it_)
+        if not m_:
+            continue
+        # the walk covers the space and all its descendants: a worklist seeded with self, extended by named_spaces
+        sv_ = m_.group(1)
+        wl = [n_ for n_ in walk_local(sr.node) if isinstance(n_, ast.Call) and call_name(n_) in ("extend", "append")
+              and "named_spaces" in norm(n_) and sv_ in norm(n_)]
+        seeds = [v for v in assigned_value(sr, norm(wl[0].func.value)) ] if wl else []
+        if wl and any(norm(v) in ("[self]", "deque([self])", "[self, ]") for v in seeds):
+            okt = True
+    nw = [st for st, t in q.attr_writes(sr, attr="name", recv="self")]
+    if not okt or (nw and car and q.path_between(sr, nw[0], car[0])):
+        R.bad(sr, sr.node, "cells elsewhere that read a reference of the renamed space (or of a space below it) by attribute "
+                           "path keep their values: the path no longer exists, or denotes another object", stmt="rename clears referrers")
     # references
     ri = ctx.func("ReferenceImpl.on_inherit")
     ws = [st for st, t in q.attr_writes(ri, attr="interface", recv="self")]
